@@ -19,7 +19,7 @@ RULE = ('Model-based histories on a MultiAntennaArray: Hypothesis draws 1..4 ant
 ASSUMPTIONS = ['closed-form tolerance amplitude*(64 ulp(phase)+1e-12)', 'request sizes exceed the largest delay (documented precondition)',
                'twin mode is a metamorphic relation against the same code under a different chunking']
 REQUIRED_CLASSES = ['mode=closed', 'mode=twin', 'delays=omitted', 'delays=zero', 'delays=distinct', 'pols=1', 'pols=2',
-                    'requests>=2', 'op=set_time', 'op=reset_start']
+                    'requests>=2', 'op=set_time', 'op=reset_start', 'refused_request', 'silent_stream']
 
 
 @st.composite
@@ -39,9 +39,12 @@ def strategy_(draw, tier):
         st.fixed_dictionaries({'op': st.just('get'), 'extra': st.integers(1, 12)}),
         st.fixed_dictionaries({'op': st.just('set_time'), 't': st.sampled_from([0.0, 1e-3, 17.25, 0.5])}),
         st.fixed_dictionaries({'op': st.just('add_time'), 't': st.sampled_from([0.0, 1e-6, 0.25])}),
-        st.fixed_dictionaries({'op': st.just('reset_start')})), min_size=2, max_size=8))
+        st.fixed_dictionaries({'op': st.just('reset_start')}),
+        # a request that is too short for the largest delay must be refused and change nothing
+        st.fixed_dictionaries({'op': st.just('get_too_short'), 'k': st.integers(0, 40)})), min_size=2, max_size=8))
     return dict(na=na, delay_kind=dk, delays=delays,
-                delay_form=draw(st.sampled_from(['list', 'tuple', 'ndarray', 'npints'])),
+                delay_form=draw(st.sampled_from(['list', 'tuple', 'ndarray', 'npints', 'uint8', 'uint16', 'int32'])),
+                silent=draw(st.lists(st.integers(0, 9), max_size=3)),       # which streams carry no source at all
                 npol=draw(st.integers(1, 2)), sr=draw(st.sampled_from([1e6, 2.048e6, 187.5e3])),
                 t0=draw(st.sampled_from([0.0, 0.0, 1e-3, 17.25])), seed=draw(st.integers(0, 2 ** 31 - 1)),
                 mode=draw(st.sampled_from(['closed', 'twin'])), ascending=draw(st.booleans()), ops=ops,
@@ -58,19 +61,30 @@ def build(AN, case, freqs, with_noise):
     if case['delay_kind'] != 'omitted':
         d = case['delays']
         kw['delays'] = {'list': list(d), 'tuple': tuple(d), 'ndarray': np.array(d),
-                        'npints': [np.int64(x) for x in d]}[case['delay_form']]
+                        'npints': [np.int64(x) for x in d], 'uint8': np.array(d, dtype=np.uint8),
+                        'uint16': np.array(d, dtype=np.uint16), 'int32': np.array(d, dtype=np.int32)}[case['delay_form']]
     arr = AN.MultiAntennaArray(**kw)
+    silent = set(case.get('silent', []))
+    idx = 0
+    for p, s in enumerate(arr.bg_streams):
+        a, f = freqs['bg'][p]
+        if idx not in silent:
+            s.add_signal(lambda ts, a=a, f=f: a * np.sin(2 * np.pi * f * ts))
+            if with_noise:
+                s.add_noise(v_mean=0.0, v_std=0.7)
+        else:
+            freqs['bg'][p] = (0.0, f)          # a stream without any source contributes nothing
+        idx += 1
     for i, ant in enumerate(arr.antennas):
         for p, s in enumerate(ant.streams):
             a, f = freqs['own'][i][p]
-            s.add_signal(lambda ts, a=a, f=f: a * np.sin(2 * np.pi * f * ts))
-            if with_noise:
-                s.add_noise(v_mean=0.0, v_std=1.0)
-    for p, s in enumerate(arr.bg_streams):
-        a, f = freqs['bg'][p]
-        s.add_signal(lambda ts, a=a, f=f: a * np.sin(2 * np.pi * f * ts))
-        if with_noise:
-            s.add_noise(v_mean=0.0, v_std=0.7)
+            if idx not in silent:
+                s.add_signal(lambda ts, a=a, f=f: a * np.sin(2 * np.pi * f * ts))
+                if with_noise:
+                    s.add_noise(v_mean=0.0, v_std=1.0)
+            else:
+                freqs['own'][i][p] = (0.0, f)
+            idx += 1
     return arr
 
 
@@ -88,6 +102,8 @@ def run_case(case, ctx):
     freqs = dict(own=[[(float(rs.uniform(0.5, 2)), float(rs.uniform(0.01, 0.2) * sr)) for _ in range(npol)] for _ in range(na)],
                  bg=[(float(rs.uniform(0.5, 2)), float(rs.uniform(0.01, 0.2) * sr)) for _ in range(npol)])
     with_noise = case['mode'] == 'twin'
+    if case.get('silent'):
+        obs.cls('silent_stream')
     ok, arr = core.call(obs, 'construct[' + case['delay_kind'] + ']', build, AN, case, freqs, with_noise)
     if not ok:
         return obs
@@ -139,6 +155,29 @@ def run_case(case, ctx):
         name = o['op']
         obs.cls('op=' + name)
         nops += 1
+        if name == 'get_too_short':
+            if D == 0:
+                continue
+            obs.cls('refused_request')
+            k = o['k'] % (D + 1)            # 0..D: not larger than the largest delay
+            if k == 0:
+                continue
+            t_before = arr.t_start
+            try:
+                arr.get_samples(k)
+                obs.fail('short_request_not_refused', f'{k} samples with max delay {D}')
+            except AssertionError:
+                pass
+            except BaseException as exc:
+                who, where = core.classify_exception(exc)
+                if who == 'setigen':
+                    pass          # any refusal will do
+                else:
+                    raise
+            if arr.t_start != t_before:
+                obs.fail('refused_request_moved_clock', f'{arr.t_start} vs {t_before}')
+            nops -= 1
+            continue
         if name == 'get':
             n = D + o['extra']
             ok, v = core.call(obs, 'get_samples', arr.get_samples, n)
